@@ -193,8 +193,14 @@ class Report:
         print(f"[{self.pid}] tier={self.tier} obligations={len(counted)} discharged={discharged} "
               f"refuted={len(violations)} known={len(known_hits)} undecided={len(undecided)} "
               f"bounded={len(self.bounded)} faults={len(self.faults)} wall={wall:.1f}s")
+        printed = set()
         for o, h in known_hits:
-            print(f"KNOWN-FINDING: property={self.pid} {h.get('what', o.name)} [{o.name}]")
+            key = h.get("id") or o.name
+            if key in printed:
+                continue
+            printed.add(key)
+            n = sum(1 for _, hh in known_hits if (hh.get("id") or "") == h.get("id")) if h.get("id") else 1
+            print(f"KNOWN-FINDING: property={self.pid} {h.get('what', o.name)} [{o.name}{' and %d more paths' % (n - 1) if n > 1 else ''}]")
         code = 0
         if self.faults:
             for f in self.faults[:20]:
@@ -246,7 +252,11 @@ def match_known(known: list[dict], pid: str, ob: Ob) -> Optional[dict]:
     for e in known:
         if e.get("property") != pid:
             continue
-        if e.get("obligation") != ob.name:
+        if "obligation_prefix" in e:
+            # one finding may surface on several execution paths of the same clause of the same function (.../pathN)
+            if not ob.name.startswith(e["obligation_prefix"]):
+                continue
+        elif e.get("obligation") != ob.name:
             continue
         if e.get("signature") and e["signature"] != ob.signature:
             continue
